@@ -292,6 +292,18 @@ pub fn solve_quartic(c0: f64, c1: f64, c2: f64, c3: f64, c4: f64) -> ArrayVec<f6
     let b = c2 / c4;
     let c = c1 / c4;
     let d = c0 / c4;
+    if a == 0.0 && c == 0.0 {
+        // Biquadratic: a quadratic in x^2. The factorization below divides by zero here.
+        let mut result = ArrayVec::new();
+        for y in solve_quadratic(d, b, 1.0) {
+            if y > 0.0 {
+                let x = y.sqrt();
+                result.push(-x);
+                result.push(x);
+            }
+        }
+        return result;
+    }
     if let Some(result) = solve_quartic_inner(a, b, c, d, false) {
         return result;
     }
